@@ -405,6 +405,20 @@ theorem C14mimcgen_writeString_as_write (hM : M = refMethods X n (stateMsg n)) (
 
 end
 
+/-- **all 8 packages, every history**: for each package's translated methods (with its own length literal = its block size) the
+outputs and the abstracted final state along any op list are the model's -/
+theorem C14mimcgen_all_run {BO : Type} (P : Params) (bo : BO) (X : Prims Nat BO) (hok : OK P bo X)
+    (d : Mimc_bn254.digest Nat BO) (hbo : d.byteOrder = bo) (hlt : d.h < P.q) (ops : List Op) :
+    ∀ e ∈ allMethods X, (P.size : Int) = e.2.1 →
+      abs (grun e.2.2 d ops).1 = (run P (abs d) ops).1 ∧ (grun e.2.2 d ops).2 = (run P (abs d) ops).2 := by
+  intro e he hn
+  obtain ⟨h1, h2, _⟩ := C14mimcgen_run P bo X e.2.1 e.2.2 (C14mimcgen_all X e he) hok hn d hbo hlt ops
+  exact ⟨h1, h2⟩
+
+-- non-vacuity of `hq : P.q ≤ 256 ^ P.size` (used by _write_ok, _state_setState, _writeString_as_write) together with `OK`
+example : OK { q := 101, d := 5, size := 32, consts := [3] } () (canonical { q := 101, d := 5, size := 32, consts := [3] }) ∧
+    (101 ≤ 256 ^ 32) := ⟨canonical_ok _ (by decide) (by decide), by decide⟩
+
 /-! ### abstract element type
 
 The same refinement for the generated code over ANY element type F, read through `val : F → ℕ` (hypothesis `ParamsOKF`:
